@@ -102,7 +102,7 @@ Definition tbl_op_eqb (a b : tbl_op) : bool :=
   | ODropColumn x, ODropColumn y => ident_eqb x y
   | OAlterColumn x, OAlterColumn y => altercol_eqb x y
   | OCreateIndex n e u i, OCreateIndex n' e' u' i' => cname_eqb n n' && list_eqb ixexpr_eqb e e' && obool_eqb u u' && obool_eqb i i'
-  | ODropIndex n i, ODropIndex n' i' => cname_eqb n n' && obool_eqb i i'
+  | ODropIndex n i st, ODropIndex n' i' st' => cname_eqb n n' && obool_eqb i i' && Bool.eqb st st'
   | OCreateUnique n c d i, OCreateUnique n' c' d' i' => cname_eqb n n' && idents_eqb c c' && obool_eqb d d' && ostr_eqb i i'
   | OCreateFk x, OCreateFk y => fkop_eqb x y
   | ODropConstraint n t, ODropConstraint n' t' => cname_eqb n n' && oident_eqb t t'
@@ -141,11 +141,40 @@ Definition corr_C08 (i:c08_in) (o:c08_out) : bool :=
   && option_eqb ops_eqb (o_exec m) (o_exec o)
   && Bool.eqb (o_sql_same m) (o_sql_same o).
 
+(* ---------------------------------------------------------------- naming conventions
+   SQLAlchemy passes a plain constraint / index name through the convention of its MetaData again when the convention
+   has a %(constraint_name)s token; a conv() name, which is what op.f(...) produces, is final.  So under such a
+   convention Plain s and Conv s name different objects, otherwise the same one. *)
+Definition name_key (nc:bool) (n:cname) : N * str :=
+  match n with NoName => (0%N, []) | Plain i => ((if nc then 1 else 2)%N, i_s i) | Conv s => (2%N, s) end.
+Definition tcons_name (k:tcons) : cname :=
+  match k with CPk _ n | CUq _ n _ _ | CCk _ n => n | CFk _ _ n _ _ _ _ _ _ => n end.
+Definition tbl_op_names (o:tbl_op) : list cname :=
+  match o with
+  | OCreateIndex n _ _ _ | OCreateUnique n _ _ _ | ODropConstraint n _ => [n]
+  | ODropIndex n _ st =>      (* an index the convention leaves alone: its plain name is as final as a conv() one *)
+      [if st then n else match n with Plain i => Conv (i_s i) | x => x end]
+  | OCreateFk f => [f_name f]
+  | _ => []
+  end.
+Definition top_names (o:top_op) : list cname :=
+  match o with
+  | TCreateTable t => map tcons_name (t_cons t)
+  | TDropTable _ _ _ _ => []
+  | TOp _ _ o => tbl_op_names o
+  | TModify _ _ ops => flat_map (fun m => tbl_op_names (snd m)) ops
+  end.
+Definition key_eqb (a b : N * str) : bool := N.eqb (fst a) (fst b) && str_eqb (snd a) (snd b).
+Definition names_agree (nc:bool) (a b : list top_op) : bool :=
+  list_eqb key_eqb (map (name_key nc) (flat_map top_names a)) (map (name_key nc) (flat_map top_names b)).
+
 (* ---------------------------------------------------------------- the property *)
+Definition exec_names_ok (i:c08_in) (o:c08_out) : bool :=
+  match o_exec o with Some l => names_agree (cfg_nc (fst i)) l (expected (fst i) (snd i)) | None => true end.
 Definition C08_holds (i:c08_in) (o:c08_out) : Prop :=
-  (exists st, o_parsed o = Some st) /\ o_sql_same o = true.
+  (exists st, o_parsed o = Some st) /\ o_sql_same o = true /\ exec_names_ok i o = true.
 Definition check_C08 (i:c08_in) (o:c08_out) : bool :=
-  match o_parsed o with Some _ => o_sql_same o | None => false end.
+  match o_parsed o with Some _ => o_sql_same o && exec_names_ok i o | None => false end.
 
 (* ---------------------------------------------------------------- the class the theorems cover *)
 Definition nonempty (s:str) : bool := match s with [] => false | _ => true end.
@@ -190,7 +219,7 @@ Definition can_tbl_op (c:cfg) (tn:ident) (schema:option ident) (o:tbl_op) : bool
   | ODropColumn i => can_ident i
   | OAlterColumn a => can_alter c a
   | OCreateIndex n e u _ => can_cname n && forallb can_ixexpr e && negb (is_none u)
-  | ODropIndex n _ => can_cname n
+  | ODropIndex n _ st => can_cname n && st
   | OCreateUnique n cols d i => can_cname n && forallb can_ident cols && can_ostr i
   | OCreateFk f => can_cname (f_name f) && can_ident (f_referent f) && forallb can_ident (f_local f) && forallb can_ident (f_remote f)
                    && oident_eqb schema (option_map (fun x => mkId x None) (f_source_schema f))
@@ -266,7 +295,7 @@ Definition wf_tbl_op (tn:ident) (schema:option ident) (o:tbl_op) : bool :=
   | ODropColumn i => wf_id i
   | OAlterColumn a => wf_alter a
   | OCreateIndex n e _ _ => wf_cname n && forallb wf_ixexpr e
-  | ODropIndex n _ => wf_cname n
+  | ODropIndex n _ _ => wf_cname n
   | OCreateUnique n cols _ i => wf_cname n && forallb wf_id cols && wf_ostr i
   | OCreateFk f => wf_fk f
   | ODropConstraint n t => wf_cname n && wf_oid t
